@@ -69,6 +69,12 @@ CLAIMED.update({
         note="Trusted: z3 (linear real arithmetic over the clock), symx, the SymInstant/SymTimeDelta stand-ins for datetime arithmetic. The lifetime table itself is taken from the code (the property fixes only the 1x/2x+3 s thresholds). Routing of packets to zone/DHW entities is outside. The stale first read after expiry is a recorded known finding; the zero-countdown division and the -1.0 sentinel collision were repaired.",
         design="4/C14"),
 })
+CLAIMED.update({
+    "C17": dict(
+        text="The real full_sched_to_fragz -> fragz_to_full_sched pipeline (record packing through the struct byte-layout model, hex rendering, 82-character slicing, re-grouping by day, time/setpoint formatting) runs on a weekly schedule whose zone index and switch points (hour, 5-minute slot, setpoint k/100 or on/off; two days at a time) are solver variables, with zlib replaced by the identity; per path the solver shows read-back == written field by field and every fragment <= 41 bytes. Schedule._update_payload_set/_proc_payload_set are fed the fragments in every order with repeats: whatever they assemble is the schedule written.",
+        note="Trusted: z3, symx, the struct stub. zlib is outside the encodable subset: only decompress(compress(x)) == x is assumed (counterexamples are replayed with the real zlib). The voluptuous validators are not modelled (schedules are well-formed by construction). Float setpoints are exact reals here; the int(round(x*100)) kernel was decided under C04. Fragment write/read commands: C03.",
+        design="4/C17"),
+})
 NOT_APPLICABLE = {
     "C12": "whole-gateway discovery against a scripted controller over simulated hours: the quantified space is a discrete configuration/loss pattern and the entity layer (voluptuous schemas, pollers, entity graph) is outside the symbolically executable subset; decode kernels it rests on are covered under C05",
     "C15": "schema validity/consistency over packet histories: validators are voluptuous (third-party, callable/regex based, not instrumented) and the rules live in the entity graph; no symbolic dimension is encodable within reach",
